@@ -27,8 +27,10 @@ ASSUMPTIONS = [
     "gene finding is a no-op module; every record carries one CDS so it is not skipped",
     "illegal characters = the set removed by fix_record_name_id (file name / GenBank header unsafe characters)",
 ]
-BOUNDS = {"quick": "lists of <= 3 from a 30-id pool (ordered), both header settings", "thorough": "lists of <= 3 from the full 44-id pool and <= 4 from a 16-id pool"}
-REQUIRED_BUCKETS = {t: ["ids:duplicates-in-input", "ids:shortened", "ids:illegal-characters", "ids:versioned-accession",
+BOUNDS = {"quick": "lists of <= 3 from a 30-id pool (ordered), both header settings; structured long-id family: pairs over heads {a,b,:}^3 (64 ids), "
+                   "triples over heads {a,:}^3 (26 ids)",
+          "thorough": "lists of <= 3 from the full 44-id pool and <= 4 from a 16-id pool; structured long-id family: pairs and triples over heads {a,b,:}^3"}
+REQUIRED_BUCKETS = {t: ["ids:duplicates-in-input", "ids:shortened", "ids:illegal-characters", "ids:versioned-accession", "ids:shortened-and-cleaned",
                         "genes:renamed", "genes:rejected"] for t in ("quick", "thorough")}
 ILLEGAL = set('''!"#$%&()*+,:;=>?@[]^`'{|}/ ''')
 N_CHUNKS = 32
@@ -46,6 +48,23 @@ QUICK_POOL = POOL[:12] + POOL[15:17] + POOL[19:22] + POOL[24:27] + POOL[29:32] +
 SMALL_POOL = ["a", "ab", "a:b", "ab_0", "abcdefghijklmnopq", "abcdefghijklmnopr", "abcdefghijkl_0", "c00001_abcdefg..",
               "NZ_ABCD01000079.1", "NZ_ABCD01000079", "contig12 some description x", "contig12 another description",
               "scaffold123456.abcdefgh", "a" * 17, "x;y", "xy"]
+
+
+def structured_family(letters):
+    """long ids generated from a small grammar instead of picked by hand: every 3-character head over `letters` (which include
+    an illegal character) followed by a tail that makes the id too long, once with a contig number (shortened to c<number>_...)
+    and once without (shortened to c<record index>_...), plus the literal shortened / shortened-and-cleaned forms those can take"""
+    out = []
+    for head in itertools.product(letters, repeat=3):
+        out.append("".join(head) + "cdefgh-contig7")
+        out.append("".join(head) + "cdefghijklmnopq")
+    out += ["c00007_abcdef..", "c00007_abcdefg..", "c00007_aacdefg..", "c00001_aacdefg..", "c00002_aacdefg..", "c00001_abcdef..",
+            "c00002_abcdef..", "c00003_abcdef..", "aacdefgh-con_0", "abcdefgh-con_0"]
+    return out
+
+
+FAMILY_QUICK = structured_family("a:")
+FAMILY_FULL = structured_family("ab:")
 
 
 def make_records(ids):
@@ -137,6 +156,10 @@ def shards(tier):
         for long_headers in (False, True):
             for chunk in range(N_CHUNKS):
                 out.append(["ids", "small", 4, long_headers, chunk])
+    for long_headers in (False, True):
+        for chunk in range(N_CHUNKS):
+            out.append(["ids", "family-pairs", 2, long_headers, chunk])
+            out.append(["ids", "family-quick" if tier == "quick" else "family-full", 3, long_headers, chunk])
     out.append(["genes"])
     return out
 
@@ -156,8 +179,9 @@ def run_shard(shard):
     res = Result()
     if shard[0] == "ids":
         _, which, k, long_headers, chunk = shard
-        pool = {"quick": QUICK_POOL, "full": POOL, "small": SMALL_POOL}[which]
-        sizes_only = k if which == "small" else None
+        pool = {"quick": QUICK_POOL, "full": POOL, "small": SMALL_POOL, "family-pairs": FAMILY_FULL, "family-quick": FAMILY_QUICK,
+                "family-full": FAMILY_FULL}[which]
+        sizes_only = k if which in ("small", "family-quick", "family-full") else None
         for idx, ids in enumerate(id_lists(pool, k)):
             if idx % N_CHUNKS != chunk or (sizes_only and len(ids) != sizes_only):
                 continue
@@ -173,6 +197,8 @@ def run_shard(shard):
                 res.buckets["ids:shortened"] += 1
             if any(set(i) & ILLEGAL for i in ids):
                 res.buckets["ids:illegal-characters"] += 1
+            if not long_headers and any(len(i) > 16 and set(i[:7]) & ILLEGAL for i in ids):
+                res.buckets["ids:shortened-and-cleaned"] += 1
             if any(i.startswith("NZ_") for i in ids):
                 res.buckets["ids:versioned-accession"] += 1
             res.outcomes[("ids", long_headers, tuple(sorted({c for c, _ in fails})))] += 1
